@@ -737,12 +737,15 @@ def _analyse_c13(args):
         out["full"] = ("errors", error_lines(r))
     else:
         out["full"] = ("crash", _crash_plain(r))
-    v, lines, detail = typing_verdict(text, extra=extra, repo=repo, name=name)
+    st0, ir = compile_emb(text, stop="annotate_types", name=name, extra=extra, repo=repo)
+    if st == "ok" and st0 == "ok":
+        v, lines, detail = "accept", [], None      # accepted by every pass: no need to bracket
+    else:
+        v, lines, detail = typing_verdict(text, extra=extra, repo=repo, name=name)
     out["typing"] = (v, lines, _crash_plain(detail) if v in ("crash", "other-crash") else None)
     if v.startswith("early-"):
         out["oom"] = "rejected-before-type-check"
         return out
-    st0, ir = compile_emb(text, stop="annotate_types", name=name, extra=extra, repo=repo)
     try:
         mt = ModuleTranslator(ir).translate()
         out["coq"] = mt.coq_input()
@@ -1098,7 +1101,10 @@ def _analyse_c14(args):
         out["layout"] = ("early", [])
         out["oom"] = "rejected-before-attribute-checks" if st0 == "errors" else "crash-before-attribute-checks"
         return out
-    st1, r1 = compile_emb(text, stop="set_write_methods", name=name, extra=extra, repo=repo)
+    if st == "ok":
+        st1, r1 = "ok", None                       # accepted by every pass
+    else:
+        st1, r1 = compile_emb(text, stop="set_write_methods", name=name, extra=extra, repo=repo)
     if st1 == "crash":
         out["layout"] = ("crash", _crash_plain(r1))
     elif st1 == "errors":
